@@ -230,7 +230,7 @@ func vfStaleSets(sc vfCleanScenario, m *vfModel) (staleEntries map[string][]stri
 	sa := map[string]bool{}
 	for g, ks := range m.saddr {
 		for k := range ks {
-			n := strings.Replace(g, "%d", fmt.Sprint(k), 1)
+			n := vfStandaloneName(g, k)
 			sa[n] = true
 			addressedFiles = append(addressedFiles, n)
 		}
